@@ -85,6 +85,8 @@ class Harness:
     # ---- stage stubs
     def estimate_cn(self, gene, profile, coverage, solver=None, debug=None):
         self.calls.append("cn")
+        self.seen_gene = {"id": id(gene), "do_copy_number": gene.do_copy_number,
+                          "alleles": len(gene.alleles)}
         self.seen_profile = {k: v for k, v in profile.__dict__.items()
                              if k not in ("name", "data", "cn_region", "neutral_value")}
         out = []
